@@ -2588,6 +2588,189 @@ def gen_opt0(repo):
 GENERATORS["Opt0Gen"] = gen_opt0
 
 
+# ---- mixed.py: mixed_steps_tabulation: schedule[n_i, s_i, :] is one cell (kind, advance, cost) of Mixed.table ----
+# An assignment of a cell is Mixed.tset (the loop bounds keep every index inside the array the first statement allocates; an index
+# outside it would be an IndexError in numpy and is a no-op in this reading), a read Mixed.tget with IndexError, `assert` raises
+# AssertionError, int64 arithmetic is exact (no wrap-around is modelled), `//` is Z.div.
+TABUL_PRE = ("n, s", ["njit"], ["schedule = np.zeros((n + 1, s + 1, 3), dtype=np.int64)", "schedule[:, :, 0] = _NONE", "schedule[:, :, 1] = 0", "schedule[:, :, 2] = -1"])
+TABUL_KINDS = {"_NONE": ("KNone", "NONE"), "_FORWARD": ("KForward", "FORWARD"), "_FORWARD_REVERSE": ("KFR", "FORWARD_REVERSE"), "_WRITE_ADJ_DEPS": ("KAdj", "WRITE_ADJ_DEPS"),
+               "_WRITE_ICS": ("KIcs", "WRITE_ICS")}
+
+
+class TabulTr:
+    def __init__(self):
+        self.names = {"n": "n", "s": "s"}
+        self.n = 0
+
+    def fresh(self):
+        self.n += 1
+        return "x%d_" % self.n
+
+    def cell(self, e):
+        """schedule[a, b, k] -> (a, b, k)"""
+        if isinstance(e, ast.Subscript) and isinstance(e.value, ast.Name) and e.value.id == "schedule" and isinstance(e.slice, ast.Tuple) and len(e.slice.elts) == 3:
+            return e.slice.elts
+        return None
+
+    def z(self, e, binds):
+        if isinstance(e, ast.Constant) and type(e.value) is int:
+            return str(e.value) if e.value >= 0 else "(%d)" % e.value
+        if isinstance(e, ast.Name) and e.id in self.names:
+            return self.names[e.id]
+        c = self.cell(e)
+        if c is not None and isinstance(c[2], ast.Constant) and c[2].value == 2:
+            a, b = self.z(c[0], binds), self.z(c[1], binds)
+            x = self.fresh()
+            binds.append("do %s <- tget schedule %s %s;" % (x, a, b))
+            return "(snd %s)" % x
+        if isinstance(e, ast.BinOp) and isinstance(e.op, (ast.Add, ast.Sub, ast.Mult, ast.FloorDiv)):
+            a = self.z(e.left, binds)
+            b = self.z(e.right, binds)
+            return "(%s %s %s)" % (a, {ast.Add: "+", ast.Sub: "-", ast.Mult: "*", ast.FloorDiv: "/"}[type(e.op)], b)
+        raise Untranslatable("integer expression " + ast.dump(e)[:100])
+
+    def cmp(self, e, binds):
+        if isinstance(e, ast.Compare) and len(e.ops) == 1:
+            a, b = self.z(e.left, binds), self.z(e.comparators[0], binds)
+            for k, t in ((ast.Eq, "=?"), (ast.Lt, "<?"), (ast.Gt, ">?"), (ast.LtE, "<=?")):
+                if isinstance(e.ops[0], k):
+                    return "(%s %s %s)" % (a, t, b)
+        raise Untranslatable("condition " + ast.dump(e)[:100])
+
+    def branch(self, test, then, els):
+        """if test: then else: els -- `or` evaluates its right operand (and the reads in it) only when the left one is false"""
+        if isinstance(test, ast.BoolOp) and isinstance(test.op, ast.Or) and len(test.values) == 2:
+            return self.branch(test.values[0], then, self.branch(test.values[1], then, els))
+        binds = []
+        c = self.cmp(test, binds)
+        return " ".join(binds + ["if %s then (%s) else (%s)" % (c, then, els)])
+
+    def block(self, stmts, k):
+        if not stmts:
+            return k
+        s, rest = stmts[0], stmts[1:]
+        if isinstance(s, ast.Return):
+            if ast.unparse(s.value) != "schedule" or rest:
+                raise Untranslatable("return " + ast.unparse(s))
+            return "Ok schedule"
+        if isinstance(s, ast.Raise):
+            if not (isinstance(s.exc, ast.Call) and isinstance(s.exc.func, ast.Name) and s.exc.func.id == "RuntimeError"):
+                raise Untranslatable("raise " + ast.unparse(s)[:60])
+            return "Err RuntimeError"
+        if isinstance(s, ast.Assert) and s.msg is None:
+            binds = []
+            c = self.cmp(s.test, binds)
+            return " ".join(binds + ["if negb %s then Err AssertionError else (%s)" % (c, self.block(rest, k))])
+        if isinstance(s, ast.Assign) and len(s.targets) == 1 and isinstance(s.targets[0], ast.Name) and s.targets[0].id == "m1":
+            binds = []
+            v = self.z(s.value, binds)
+            self.names["m1"] = "m1"
+            return " ".join(binds + ["let m1 := %s in" % v, self.block(rest, k)])
+        if isinstance(s, ast.Assign) and len(s.targets) == 1 and self.cell(s.targets[0]) is not None:
+            c = self.cell(s.targets[0])
+            if not (isinstance(c[2], ast.Slice) and c[2].lower is None and c[2].upper is None and c[2].step is None and isinstance(s.value, ast.Tuple) and len(s.value.elts) == 3
+                    and isinstance(s.value.elts[0], ast.Name) and s.value.elts[0].id in TABUL_KINDS):
+                raise Untranslatable("assignment " + ast.unparse(s)[:80])
+            binds = []
+            a, b = self.z(c[0], binds), self.z(c[1], binds)
+            x, y = self.z(s.value.elts[1], binds), self.z(s.value.elts[2], binds)
+            return " ".join(binds + ["let schedule := tset schedule %s %s (%s, %s, %s) in" % (a, b, TABUL_KINDS[s.value.elts[0].id][0], x, y), self.block(rest, k)])
+        if isinstance(s, ast.If):
+            kk = self.block(rest, k)
+            return self.branch(s.test, self.block(s.body, kk), self.block(s.orelse, kk))
+        if isinstance(s, ast.For) and not s.orelse and isinstance(s.target, ast.Name) and isinstance(s.iter, ast.Call) and ast.unparse(s.iter.func) == "range" and len(s.iter.args) in (1, 2):
+            binds = []
+            lo = "0" if len(s.iter.args) == 1 else self.z(s.iter.args[0], binds)
+            hi = self.z(s.iter.args[-1], binds)
+            if binds:
+                raise Untranslatable("range bounds")
+            v = s.target.id
+            old = self.names.get(v)
+            self.names[v] = v
+            body = self.block(s.body, "Ok schedule")
+            if old is None:
+                del self.names[v]
+            else:
+                self.names[v] = old
+            return "do schedule <- loop (Z.to_nat (%s - %s)) %s schedule (fun %s schedule => %s); %s" % (hi, lo, lo, v, body, self.block(rest, k))
+        raise Untranslatable("statement " + ast.dump(s)[:100])
+
+
+def gen_tabul(repo):
+    tree = ast.parse(open(os.path.join(repo, "checkpoint_schedules", "mixed.py")).read())
+    fns = [n for n in tree.body if isinstance(n, ast.FunctionDef) and n.name == "mixed_steps_tabulation"]
+    if len(fns) != 1:
+        raise Untranslatable("def mixed_steps_tabulation")
+    body = _strip_doc(fns[0].body)
+    if ast.unparse(fns[0].args) != TABUL_PRE[0] or [ast.unparse(d) for d in fns[0].decorator_list] != TABUL_PRE[1] or [ast.unparse(x) for x in body[:4]] != TABUL_PRE[2]:
+        raise Untranslatable("mixed_steps_tabulation: signature / allocation of the array")
+    consts = {ast.unparse(n.targets[0]): ast.unparse(n.value) for n in tree.body if isinstance(n, ast.Assign) and len(n.targets) == 1 and ast.unparse(n.targets[0]) in TABUL_KINDS}
+    if consts != {k: "int(StepType.%s)" % v[1] for k, v in TABUL_KINDS.items()}:
+        raise Untranslatable("the integer codes of the step types")
+    t = TabulTr().block(body[4:], None)
+    return "\n".join(["(* GENERATED by harness/translate.py from checkpoint_schedules/mixed.py (mixed_steps_tabulation) -- do not edit *)",
+                      "From Coq Require Import ZArith List Bool.", "From CS Require Import Actions Mixed TabulGenSpec.", "Import ListNotations.", "Open Scope Z_scope.", "",
+                      "Definition tabul_gen (n s : Z) : res table :=",
+                      "  let schedule : table := repeat (repeat (KNone, 0, -1) (Z.to_nat (s + 1))) (Z.to_nat (n + 1)) in", "  " + t + ".", "",
+                      "Lemma tabul_gen_is_shape : tabul_gen = tabul_shape.", "Proof. reflexivity. Qed.",
+                      "Lemma tabul_gen_is_model : forall n s t, 1 <= n -> (tabul_gen n s = Ok t <-> Mixed.tabulate n s = Ok t).",
+                      "Proof. rewrite tabul_gen_is_shape. exact tabul_shape_is_model. Qed.", ""]) + "\n"
+
+
+GENERATORS["TabulGen"] = gen_tabul
+
+
+# ---- textual pins: library code the translations above READ symbolically, or that the model mirrors by hand ----
+# No Gallina is produced from these: the obligation is that the code is, statement for statement (docstrings and comments aside), the
+# text the reading / the hand-written model was written for and validated against by the correspondence.  A change to any of them
+# breaks the obligation (fail-closed), whatever the sizes at which its effect would show.
+import hashlib
+
+
+def _norm_src(node):
+    for n in ast.walk(node):
+        if isinstance(n, (ast.FunctionDef, ast.ClassDef, ast.Module)) and n.body and isinstance(n.body[0], ast.Expr) and isinstance(n.body[0].value, ast.Constant) \
+                and isinstance(n.body[0].value.value, str):
+            n.body = n.body[1:] or [ast.Pass()]
+    return hashlib.sha256(ast.unparse(node).encode()).hexdigest()[:16]
+
+
+def _pin(repo, path, names, expected):
+    tree = ast.parse(open(os.path.join(repo, "checkpoint_schedules", path)).read())
+    if names is None:
+        got = {"<module>": _norm_src(tree)}
+    else:
+        got = {n.name: _norm_src(n) for n in tree.body if isinstance(n, (ast.FunctionDef, ast.ClassDef)) and n.name in names}
+    for k, v in expected.items():
+        if got.get(k) != v:
+            raise Untranslatable("%s: %s is not the text the model was written for (pin %s, now %s)" % (path, k, v, got.get(k)))
+
+
+PINS = {
+    "SeqPins": [("hrevolve_sequences/basic_functions.py", None, {"<module>": "c2a559c085e9aab7"}),     # Operation, Function, Sequence (insert, insert_sequence, shift,
+                                                                                                         # remove_useless_wm, flattening), Table, argmin, beta
+                ("hrevolve_sequences/utils.py", None, {"<module>": "5dec6211a6cc04ee"}),
+                ("hrevolve_sequences/periodic_disk_revolve.py", ["mxrr_close_formula"], {"mxrr_close_formula": "118c81b5a68267f1"})],
+    "AllocPins": [("multistage.py", ["allocate_snapshots"], {"allocate_snapshots": "81c29679bb7b0e80"})],
+    "HelperPins": [("multistage.py", ["optimal_extra_steps", "optimal_steps_binomial"], {"optimal_extra_steps": "4715cfdda862c18a", "optimal_steps_binomial": "66212afe4ec6ed38"}),
+                   ("mixed.py", ["optimal_steps_mixed", "cache_step"], {"optimal_steps_mixed": "26df9b27700e87d8", "cache_step": "f89f2654d9779d7a"})],
+    "EnumPins": [("schedule.py", ["StorageType", "StepType"], {"StorageType": "16cc545c909b3eb5", "StepType": "9ad1b5cb46f49a29"})],
+}
+
+
+def _gen_pins(name):
+    def g(repo):
+        for path, names, expected in PINS[name]:
+            _pin(repo, path, names, expected)
+        return "\n".join(["(* GENERATED by harness/translate.py (%s): the pinned library text is unchanged -- do not edit *)" % name,
+                          "Lemma %s_unchanged : True." % name.lower(), "Proof. exact I. Qed.", ""]) + "\n"
+    return g
+
+
+for _n in PINS:
+    GENERATORS[_n] = _gen_pins(_n)
+
+
 def gen_seq(repo):
     _check_seq_env(repo)
     rv = SeqTr("revolve", {"l": "l", "cm": "cm", "opt_0": "opt_0", "parameters.uf": "uf"}, {}).block(_seq_function(repo, "revolve", "revolve"), None)
